@@ -165,7 +165,16 @@ def check(ctx):
             ctx.fail("C12.c", "replay:unclassified-callee:%s" % lib.tail(n, 2), R.loc(b), "%s on the detached queue is not classified" % sn)
     # the postponing site uses the queue's push
     pushes = lib.call_blocks(R, lambda n: lib.tail(n, 2) == qname + "::push")
+    _dispatch_order(ctx)
     others = [b for b, t, fr in R.iter_calls() if fr and lib.tail(mir.fn_name(fr), 2).startswith(qname + "::")
               and lib.tail(mir.fn_name(fr), 1) not in ("push", "pop_front", "append", "remove")]
     ctx.check(len(pushes) >= 1 and not others, "C12.c", "runner:postpones-with-push-back", "%s:%d" % (R.file, R.line),
               "runner uses only push/pop_front/append/remove on the queue", "runner uses another queue operation: %s" % [R.loc(b) for b in others])
+
+
+def _dispatch_order(ctx):
+    """C12.d: the dispatch loops that turn one sent event into per-listener commands iterate in registration order and
+    append at the back (shared with C09.a)"""
+    import core, c09
+    n = core.adopt(ctx, c09, lambda o: o["rule"] == "C09.a" and ("iterates-in-registration-order" in o["key"] or "queues-at-back" in o["key"]), "C12.d")
+    ctx.floor("C12.d", n, 15, "shared dispatch-order obligations (C09.a)")
